@@ -32,6 +32,48 @@ def reject_part(v):
                     "raised" if rejected else "succeeded", str(r)[-300:] if rejected else ""), {"case": c})
             elif rejected and type(r).__name__ != "ByteBoundaryError":
                 v.violation("C07_Reject", "rejected with something else than ByteBoundaryError: %s" % str(r)[-300:], {"case": c})
+    return res.emits
+
+
+def reject_history_part(v, emits, seed):
+    """the same runs defined ONE AFTER THE OTHER in one module, every class written with one and the same options dictionary
+    object (rejected definitions in between): each definition is accepted or rejected on its own widths alone"""
+    import importlib.util
+    import os
+    import random
+    import shutil
+    import sys
+    import tempfile
+    cases = [c for c in emits if c["ctx"] == "alone"]
+    random.Random(seed + 23).shuffle(cases)
+    cases = cases[:400]
+    lines = ["from bisturi.packet import Packet", "from bisturi.field import Bits, Int", "OPTS = {'endianness': 'little'}", "RES = []"]
+    for i, c in enumerate(cases):
+        lines += ["try:", "    class K%d(Packet):" % i, "        __bisturi__ = OPTS"]
+        lines += ["        f%d = Bits(%d)" % (j, w) for j, w in enumerate(c["ws"])]
+        lines += ["    RES.append('')", "except Exception as e:", "    RES.append(type(e).__name__)"]
+    d = tempfile.mkdtemp(prefix="bitshist_")
+    try:
+        path = os.path.join(d, "bitshist.py")
+        with open(path, "w") as fh:
+            fh.write("\n".join(lines) + "\n")
+        spec = importlib.util.spec_from_file_location("bitshist", path)
+        mod = importlib.util.module_from_spec(spec)
+        sys.modules["bitshist"] = mod
+        spec.loader.exec_module(mod)
+        res = list(mod.RES)
+    finally:
+        sys.modules.pop("bitshist", None)
+        shutil.rmtree(d, ignore_errors=True)
+    for i, (c, r) in enumerate(zip(cases, res)):
+        v.count_case(("reject_history", i, tuple(c["ws"])), nontrivial=True)
+        v.cov["traces_validated_against_impl"] += 1
+        if (r == "") != c["definable"] or (r not in ("", "ByteBoundaryError")):
+            v.violation("C07_Reject", "widths %r defined as the %dth class of a module (after %r, all sharing one options dictionary): "
+                        "specification says %s, the class definition %s" % (c["ws"], i, [x["ws"] for x in cases[max(0, i - 2):i]],
+                                                                        "definable" if c["definable"] else "rejected",
+                                                                        "succeeded" if r == "" else "raised " + r), {"case": c})
+            break
 
 
 def run(tier, seed):
@@ -42,7 +84,7 @@ def run(tier, seed):
     for u in (["U_C07"] if quick else ["U_C07", "U_C07_16"]):
         pp.exhaustive_part(v, u, ["Inv_Machine", "Inv_C04_Exact"], gens, OWNED_U, c01=False)
     vp.exhaustive_part(v, "U_C07V", ["Inv_C07_Isolated", "Inv_Pack2", "Inv_C02_Layout"], gens, OWNED_V)
-    reject_part(v)
+    reject_history_part(v, reject_part(v), seed)
     pp.random_part(v, seed, 300 if quick else 3000, gens, OWNED_U, "bits", c01=False)
     v.cov["exhaustive"] = True
     v.cov["rule"] = ("unpack: all 128 compositions of 8 bits x all 256 byte values (+ compositions of 16 bits with <=4 members x a "
